@@ -318,3 +318,28 @@ def build_frame(spec):
     if spec.get('columns_name'):
         df.columns.name = spec['columns_name']
     return df
+
+
+def csys_history(spec):
+    """For a system spec whose operations are add / flow / remove_flow only: the builder history with the
+    real objects, [('add', compartment) | ('flow', source, destination, Expr) | ('remove', source, destination)],
+    built exactly as build_component builds them; None for histories with relabelling operations."""
+    import sympy
+    from pharmpy.basic import Expr
+    from pharmpy.model import output
+    if spec.get('kind') != 'csys' or any(op[0] not in ('add', 'flow', 'remove_flow') for op in spec['ops']):
+        return None
+    loc = {n: sympy.Symbol(n) for n in ('Q', 'S', 'N', 'E', 'I', 'O', 'F', 'V', 'CL', 'KA')}
+    comps, hist = {}, []
+    for op in spec['ops']:
+        if op[0] == 'add':
+            c = build_component(op[1])
+            comps[op[1]['name']] = c
+            hist.append(('add', c))
+        else:
+            dst = output if op[2] == 'OUTPUT' else comps[op[2]]
+            if op[0] == 'flow':
+                hist.append(('flow', comps[op[1]], dst, Expr(Expr(sympy.sympify(op[3], locals=loc)))))
+            else:
+                hist.append(('remove', comps[op[1]], dst))
+    return hist
